@@ -100,6 +100,7 @@ func zzFiemap(fd uintptr, start, length uint64, size uint32) ([]fibmap.Extent, s
 		return nil, syscall.EBADF
 	}
 	var out []fibmap.Extent
+	size = zzExtentBatch(size)
 	u := uint64(f.u)
 	// find the last present block (for the LAST flag)
 	last := -1
@@ -150,6 +151,17 @@ func zzFallocate(fd int, mode uint32, off int64, length int64) error {
 }
 
 func zzCleanupFiles() {}
+
+// zzExtentBatch: FIEMAP hands back at most fm_extent_count extents per call and the
+// caller continues after the last one.  The model files have a handful of blocks where a
+// real chain file has millions, so the batch is scaled the same way: a request for up to
+// 1024 extents stands for one extent per call (lookup's single-extent probe stays 1).
+func zzExtentBatch(size uint32) uint32 {
+	if size >= 1024 {
+		return size / 1024
+	}
+	return size
+}
 
 // zzFstat: st_size and st_blocks (512-byte units) as the presence map implies
 func zzFstat(fd int, st *syscall.Stat_t) error {
